@@ -694,6 +694,15 @@ def judge_real(c, r):
         bad.append(("C04", "real backend %s: the Parallel call did not terminate (watchdog 60 s, confirmed with 150 s); "
                            "calls finished before: %d; failure injected: tasks %s (%s), input %s" % (
                                c["backend"], len(r["calls"]), c["tfail"], c.get("exc"), c["ifail"])))
+    if c.get("stats_leak") and len(r.get("calls", [])) == 2:
+        ahead = r.get("ahead", {}).get("2", 0)
+        bound = (pre_amount(c["pre_dispatch"], c["n_jobs"]) + c["n_jobs"]) * 2 + 2
+        if ahead > bound:
+            bad.append(("C09", "real backend %s%s, batch_size='auto': after a call of 3000 very short tasks that failed, a call of 40 tasks "
+                               "of 0.25 s on the same object was %d items ahead of its completed tasks (at most %d expected with "
+                               "pre_dispatch=%s, n_jobs=%d and batches of one or two slow tasks): the batch size of the failed call "
+                               "leaked into it" % (c["backend"], " inside a with block" if c.get("with_block") else "", ahead, bound,
+                                                   c["pre_dispatch"], c["n_jobs"])))
     if c.get("spawn") and r.get("orphans"):
         bad.append(("C04", "real backend %s%s: %d of the %d processes started by the tasks of the failed call were still running "
                            "3 s after the call had raised: the abort did not kill the workers' process trees" % (
@@ -795,6 +804,11 @@ def fixed_real_cases():
     # the tasks of a failing loky call have started processes of their own: the abort kills the workers' process trees
     for managed in (False, True):
         out.append(dict(base, backend="loky", n_jobs=3, N=3, tfail=[0], with_block=managed, slow=8.0, batch_size=1, spawn=True))
+    # auto-batching statistics belong to ONE call: after a call of very short tasks (big batches) that failed late, a call of
+    # slow tasks on the same object must not run ahead of its completed tasks by more than pre_dispatch + n_jobs small batches
+    # (outside a with block only: inside one the backend, and with it its statistics, deliberately lives on between calls)
+    out.append(dict(base, backend="loky", n_jobs=2, N=3000, N2=40, tfail=[2990], batch_size="auto", pre_dispatch="2*n_jobs",
+                    with_block=False, stats_leak=True, reuse=2))
     # a task fails at once while the others take their time: the input must not be consumed much further (C09), whatever
     # the way the failure reaches the caller (raised in the worker, reported by the pool's error callback, refused at
     # hand-over)
@@ -827,7 +841,8 @@ def fixed_real_cases():
 def real_sampling(ctx, quick, prop, fail_rate):
     cases = real_cases(ctx.rng, (24 if quick else 200) if prop != "C09" else (0 if quick else 40), fail_rate)
     cases = [c for c in fixed_real_cases() if (fail_rate >= 0.5 or c.get("abandon") or c.get("sized") or prop == "C01")
-             and (prop != "C09" or c.get("fastfail"))] + cases
+             and (prop != "C09" or c.get("fastfail") or c.get("stats_leak"))
+             and (prop == "C09" or not c.get("stats_leak"))] + cases
     chunks = [cases[i::8] for i in range(8)]
     from concurrent.futures import ThreadPoolExecutor
 
